@@ -144,8 +144,14 @@ namespace AIToolbox::MDP {
                 // Defaulting
                 v1_ = makeValueFunction(S);
             }
-            else
+            else {
                 v1_ = vParameter_;
+                // Only the values of the starting value function are an
+                // input. The actions are produced by every backup, and
+                // bellmanOperatorInplace iterates over them, so they must
+                // have one entry per state whatever the caller passed.
+                v1_.actions.resize(S);
+            }
         }
 
         const auto & ir = [&]{
